@@ -187,6 +187,16 @@ class NormalTmpFileAssignmentLoader(BaseTmpFileAssignmentLoader):
         elif self.is_read_assignment():
             assert self.current_gene_info is not None
             assignment = ReadAssignment.deserialize(self.loader, self.current_gene_info)
+            if self.chr_record and assignment.exons:
+                # only the annotated gene span is stored with the gene info, reads may stick out of it
+                gene_info = self.current_gene_info
+                read_start = min(assignment.exons[0][0], assignment.corrected_exons[0][0]) \
+                    if assignment.corrected_exons else assignment.exons[0][0]
+                read_end = max(assignment.exons[-1][1], assignment.corrected_exons[-1][1]) \
+                    if assignment.corrected_exons else assignment.exons[-1][1]
+                if read_start < gene_info.all_read_region_start or read_end > gene_info.all_read_region_end:
+                    gene_info.set_reference_sequence(min(read_start, gene_info.all_read_region_start),
+                                                     max(read_end, gene_info.all_read_region_end), self.chr_record)
             self._read_id()
             return assignment
         else:
